@@ -7,7 +7,8 @@ Driver for the virtual-world propagation model (C15).  State = the input files b
   methods [M1,M2]                         -> ok
   g  <key> <val>                          -> ok      global value of a plain propagating parameter
   gm <method> <param> <val>               -> ok      global value of a method-specific parameter
-  flags <hasTypes> <sitesHaveEquip> <typesHaveEquip> <hasSources>   -> ok
+  flags <hasTypes> <sitesHaveEquip> <typesHaveEquip> <hasSources> <countsFloat>  -> ok
+  sample <rows> <n|->                     -> `ok <size>` | `reject` (more rows requested than the file has)
   type <name> <equip> <cells>             -> ok      a row of the site type file
   site <id> <type> <equip> <cells>        -> ok      a row of the sites file
   eq   <name> <cells>                     -> ok      a row of the equipment file (all cells after the first column)
@@ -19,7 +20,7 @@ Driver for the virtual-world propagation model (C15).  State = the input files b
   strip <column>                          -> component type of an equipment column
   unprefix <prefix> <key>                 -> `1`/`0` (prefix in key) and the un-prefixed key
 val   = -  |  t<int>  |  q<num>_<den>
-equip = -  (blank)  |  #<k>  |  @<raw>  with `|` standing for `,`
+equip = -  (blank / negative)  |  #<k>  |  #<num>_<den>  |  @<raw>  with `|` standing for `,`
 cells = [[key,val],…]
 The key tables are `Generated.Levels.tables`.
 -/
@@ -30,7 +31,7 @@ structure DrvState where
   g : Dict String := []
   gm : Dict MKey := []
   files : Files := { hasTypes := false, types := [], sitesHaveEquip := false, typesHaveEquip := false,
-                     sites := [], equipment := [], sources := none }
+                     sites := [], equipment := [], countsFloat := false, sources := none }
   srcRows : List SrcRow := []
 
 def parseVal (s : String) : Option PV :=
@@ -56,7 +57,14 @@ def parseCells (s : String) : Option Row := listOf? parseCell s
 def parseEquip (s : String) : Option EquipSpec :=
   if s = "-" then some .bad
   else match s.toList with
-    | '#' :: rest => (String.ofList rest).toNat?.map EquipSpec.count
+    | '#' :: rest =>
+      match (String.ofList rest).splitOn "_" with
+      | [n] => n.toNat?.map (fun n => EquipSpec.count (n : Rat))
+      | [n, d] => do
+        let n ← n.toNat?
+        let d ← d.toNat?
+        if d = 0 then none else some (EquipSpec.count ((n : Rat) / (d : Rat)))
+      | _ => none
     | '@' :: rest => some (.named (String.ofList (rest.map (fun c => if c = '|' then ',' else c))))
     | _ => none
 
@@ -72,7 +80,15 @@ def showPVs (l : List PV) : String := ";".intercalate (l.map showPV)
 def showSource (s : SourceEff) : String :=
   s!"{s.sid}={showBool s.rep}/{showPV s.ers}/{showPV s.epr}/{showPV s.dur}/{showPV s.multi}/{showPV s.rd}/{showPV s.rc}/{showPVs s.spatial}/{showPVs s.temporal}"
 
-def showComp (c : CompEff) : String := c.cid ++ ":" ++ ",".intercalate (c.sources.map showSource)
+/-- the rate a component hands to its sources is observable through a source of that kind whose own
+row gives no rate (`*` when the component has none) -/
+def showCompRate (c : CompEff) (rep : Bool) : String :=
+  if c.sources.any (fun s => s.rep == rep && !s.ownRate) then showPV (if rep then c.repRate else c.nonRate)
+  else "*"
+
+def showComp (c : CompEff) : String :=
+  c.cid ++ "{" ++ showCompRate c true ++ "|" ++ showCompRate c false ++ "}:"
+    ++ ",".intercalate (c.sources.map showSource)
 
 def showGroup (g : GroupEff) : String :=
   g.gid ++ "~" ++ showPVs g.times ++ "~" ++ showPVs g.costs ++ "~" ++ "&".intercalate (g.comps.map showComp)
@@ -103,12 +119,19 @@ def step (st : DrvState) (toks : List String) : DrvState × String :=
     match parseVal v with
     | some v => ({ st with gm := st.gm.set (me, p) v }, "ok")
     | none => (st, "bad-op")
-  | ["flags", a, b, c, d] =>
-    match bool? a, bool? b, bool? c, bool? d with
-    | some a, some b, some c, some d =>
+  | ["flags", a, b, c, d, e] =>
+    match bool? a, bool? b, bool? c, bool? d, bool? e with
+    | some a, some b, some c, some d, some e =>
       ({ st with files := { st.files with hasTypes := a, sitesHaveEquip := b, typesHaveEquip := c,
-                                          sources := if d then some [] else none } }, "ok")
-    | _, _, _, _ => (st, "bad-op")
+                                          sources := if d then some [] else none, countsFloat := e } }, "ok")
+    | _, _, _, _, _ => (st, "bad-op")
+  | ["sample", rows, n] =>
+    match nat? rows, (if n = "-" then some none else (nat? n).map some) with
+    | some rows, some n =>
+      match sampleSize rows n with
+      | some k => (st, s!"ok {k}")
+      | none => (st, "reject")
+    | _, _ => (st, "bad-op")
   | ["type", name, eq, cells] =>
     match parseEquip eq, parseCells cells with
     | some eq, some cells =>
